@@ -96,16 +96,16 @@ pub(crate) fn b_forget(b: Buffer) {
 
 /// InvT.G3 for one buffer, at witness indices
 pub(crate) fn assert_buffer_inv(b: &Buffer) {
-    assert!(b.rows >= 1 && b.cols >= 1, "[C02] a buffer always has at least one row and one column");
-    assert!(b.lines.len() >= b.rows, "[C02] lines() is never shorter than rows");
+    assert!(b.rows >= 1 && b.cols >= 1, "[C02][C01] a buffer always has at least one row and one column");
+    assert!(b.lines.len() >= b.rows, "[C02][C01] lines() is never shorter than rows");
     let i = any_usize();
     assume(i < b.lines.len());
-    assert!(b.lines[i].cells.len() == b.cols, "[C02] every line has exactly cols cells");
-    assert!(!b.lines[b.lines.len() - 1].wrapped, "[C02] the last line is never marked soft-wrapped");
+    assert!(b.lines[i].cells.len() == b.cols, "[C02][C01] every line has exactly cols cells");
+    assert!(!b.lines[b.lines.len() - 1].wrapped, "[C02][C01] the last line is never marked soft-wrapped");
     if let Some(l) = &b.scrollback_limit {
-        assert!(l.hard == l.soft + l.soft / 10, "[C13] the hard limit is the soft limit plus 10%");
+        assert!(l.hard == l.soft + l.soft / 10, "[C13][C01] the hard limit is the soft limit plus 10%");
         if b.lines.len() - b.rows > l.hard {
-            assert!(b.trim_needed, "[C13] exceeding the retention bound is always flagged for trimming");
+            assert!(b.trim_needed, "[C13][C01] exceeding the retention bound is always flagged for trimming");
         }
     }
 }
